@@ -16,7 +16,9 @@ import numpy as np
 from bounded import _dsutil as U
 from vlib.runner import BoundedResult
 
-MEM_CASES = [("threshold", "none"), ("threshold", "one"), ("threshold", "len"), ("threshold", "len+1"), ("full", None), ("minimal", None), ("soln_cat", None)]
+MEM_CASES = [("threshold", "none"), ("threshold", "one"), ("threshold", "len"), ("threshold", "len+1"), ("full", None), ("minimal", None), ("soln_cat", None),
+             # every format the library can WRITE goes back through the public dispatching loader as well
+             ("minimal-via-load", None), ("soln_cat-via-load", None)]
 FILE_CASES = [("file", "none"), ("file", "one"), ("file", "default")]
 
 
@@ -141,15 +143,15 @@ def run_case(res, recipe, case, tmpdir, count=True):
     if kind in ("threshold", "file"):
         want_fmt = "minimal" if (thr is not None and n >= thr) else "full"
     else:
-        want_fmt = kind
-    key_fmt = {"threshold": want_fmt, "full": "full", "minimal": "minimal", "soln_cat": "soln_cat", "file": "file"}[kind]
+        want_fmt = kind.replace("-via-load", "")
+    key_fmt = {"threshold": want_fmt, "full": "full", "minimal": "minimal", "soln_cat": "soln_cat", "file": "file", "minimal-via-load": "minimal", "soln_cat-via-load": "soln_cat"}[kind]
     pre = f"C05:{key_fmt}"
     if count:
         res.seen((json.dumps(recipe, sort_keys=True), kind, code), nontrivial=n > 0, sample={"recipe": recipe, "case": [kind, code], "format": want_fmt, "n_mazes": n})
     if want_fmt != "full" and not has_meta:
         # quantifier: "with or without per-maze metadata, with or without collected metadata" x "all thresholds":
         # when the threshold (not the caller) picks the minimal format, the dataset must still be written
-        if kind in ("minimal", "soln_cat"):
+        if kind in ("minimal", "soln_cat", "minimal-via-load", "soln_cat-via-load"):
             return  # explicit minimal formats need metadata to collect: outside what the format allows
     try:
         with _Threshold(thr, active=kind in ("threshold", "file")):
@@ -165,6 +167,10 @@ def run_case(res, recipe, case, tmpdir, count=True):
                 loaded = MazeDataset._load_minimal(ds._serialize_minimal())
             elif kind == "soln_cat":
                 loaded = MazeDataset._load_minimal_soln_cat(ds._serialize_minimal_soln_cat())
+            elif kind == "minimal-via-load":
+                loaded = MazeDataset.load(ds._serialize_minimal())
+            elif kind == "soln_cat-via-load":
+                loaded = MazeDataset.load(ds._serialize_minimal_soln_cat())
             elif kind == "file":
                 path = os.path.join(tmpdir, f"ds_{os.getpid()}_{res.evaluations}.zanj")
                 ds.save(path)
@@ -342,7 +348,7 @@ def run(tier, seed):
         + " plus 99/100/101/120 mazes around the default threshold, EMPTY datasets under thresholds {None,0,1,default} in memory and through a file, and hand-made SolvedMaze lists (mixed lengths, length-1 start==end, length-2, longest first/last, "
         "all-equal, full-grid snakes), and SECOND-GENERATION datasets (first saved to and read from a full-format / minimal-format file, then put through every format again); metadata modes per-maze / collected / none / empty-collected; configurations recording endpoint options (coordinate lists, flags, None); EACH written and read back as: "
         "serialize()+load() under set_serialize_minimal_threshold in {None,1,len,len+1} (selected format checked: minimal iff threshold is not None and len>=threshold), "
-        "explicit _serialize_full/_load_full, _serialize_minimal/_load_minimal, _serialize_minimal_soln_cat/_load_minimal_soln_cat (explicit minimal formats skipped for "
+        "explicit _serialize_full/_load_full, _serialize_minimal/_load_minimal, _serialize_minimal_soln_cat/_load_minimal_soln_cat, both minimal formats also through the dispatching MazeDataset.load (explicit minimal formats skipped for "
         "datasets with no metadata at all), and save()/read() through a real .zanj file under thresholds None (full), 1 (minimal) and the default; "
         "a fresh dataset per case; compared maze by maze with np.array_equal + shapes, cfg.serialize() against the original's cfg after serialize() returned, "
         "collected metadata by string-normalised keys and counts; distinct by (recipe, case); non-trivial = at least one maze",
